@@ -323,6 +323,8 @@ def run(tier):
         rep.unprovable("C12.defaults", "Device::new not found")
     import rules_C12_device
     rules_C12_device.device_directive(P, rep)
+    import rules_C02
+    rules_C02.byte_operand_dropped(P, rep, "C12.reach|byte-operand", "RAM or EEPROM reserved with a named size (`.byte BUF_LEN`) is not counted: a program that needs more than the device has builds, with `RAM: 0 bytes` reported")
     return rep
 
 
